@@ -27,5 +27,13 @@ Definition model_panic_sites : list ((string * string * string * string) * panic
     (("protoprint", "options.go", "parseOption", "fmt.Sprintf(""unexpected type %v"", root.FieldType)"),
       Outside "printer: WalkOptionField returns one of the three FieldType constants") ].
 
-Lemma panic_sites_agree : map fst model_panic_sites = PanicGen.sites.
+Definition pkey := (string * string * string * string)%type.
+Definition pkey_eqb (a b : pkey) : bool :=
+  match a, b with
+  | (a1, a2, a3, a4), (b1, b2, b3, b4) => String.eqb a1 b1 && String.eqb a2 b2 && String.eqb a3 b3 && String.eqb a4 b4
+  end.
+Definition pkeys_subset (a b : list pkey) : bool := forallb (fun k => existsb (pkey_eqb k) b) a.
+Definition panic_sites_same_set : bool :=
+  pkeys_subset (map fst model_panic_sites) PanicGen.sites && pkeys_subset PanicGen.sites (map fst model_panic_sites).
+Lemma panic_sites_agree : panic_sites_same_set = true.
 Proof. vm_compute. reflexivity. Qed.
